@@ -356,7 +356,10 @@ func (r *reader) initNodes(tr io.Reader) error {
 	}
 	md := make(map[uint32]*metadataEntry)
 	st := make(map[int64]map[int64]uint32)
-	if err := r.db.Batch(func(tx *bolt.Tx) (err error) {
+	// NOTE: This must not be Batch. Batch re-runs a failed function on its own, but this function
+	// consumes the JSON decoder and fills md/st: the second run resumed behind the failing entry,
+	// silently dropped it and accepted the TOC.
+	if err := r.db.Update(func(tx *bolt.Tx) (err error) {
 		nodes, err := getNodes(tx, r.fsID)
 		if err != nil {
 			return err
